@@ -90,3 +90,35 @@ def _clock_at(eng, st, args, kwargs):
 def _same_dict(eng, st, args, kwargs):
     a, b = args
     return BoolV(a.term == b.term)
+
+
+# ---- families of sets (set of frozensets built by a comprehension)
+@spec('n_groups')
+def _n_groups(eng, st, args, kwargs):
+    from .values import IntV
+    (fam,) = args
+    return IntV(fam.meta.n)
+
+
+@spec('group')
+def _group(eng, st, args, kwargs):
+    """i-th member (by construction index, not iteration order) of a family of sets."""
+    from .values import KSetInt
+    fam, i = args
+    return V(KSetInt, fam.meta.member(eng.as_int(i, st)))
+
+
+@spec('pt')
+def _pt(eng, st, args, kwargs):
+    """pt(a, s, k) == a + k*s, as the trigger term of the range-membership axiom."""
+    from .values import IntV
+    a, s, k = [eng.as_int(x, st) for x in args]
+    eng.rangeset()
+    return IntV(eng.uf_cache['rangept'](a, s, k))
+
+
+@spec('rangeset')
+def _rangeset(eng, st, args, kwargs):
+    from .values import KSetInt
+    a, b, s = [eng.as_int(x, st) for x in args]
+    return V(KSetInt, eng.rangeset()(a, b, s))
